@@ -170,7 +170,11 @@ func (g *gen) block(e env, budget int) []zn.Stmt {
 	out = append(out, g.mark())
 	for i := 0; i < n; i++ {
 		out = append(out, g.stmt(e, budget)...)
-		out = append(out, g.mark())
+		// a marker after every statement - except, sometimes, after the last one, so that a
+		// nested statement can be the LAST statement of its block (dangling 再如/否则 shapes)
+		if i < n-1 || g.pick(2, "tailmark") == 0 {
+			out = append(out, g.mark())
+		}
 	}
 	return out
 }
